@@ -340,6 +340,29 @@ def r_anonymize(ck: Checker) -> None:
     ck.add("aggregates are skipped", ok, tb, tcalls[0], f"transform not applied to aggregate literals: {ok}", "inside an aggregate a variable that occurs once still distinguishes tuples")
 
 
+def r_mapper_init(ck: Checker) -> None:
+    """Mapper.__init__: the renaming of the copy rule's head variables is complete before it is applied (a head variable may
+    repeat: `eq(X,X) :- elem(X,W).`)"""
+    func = ck.func(f"{CLS}.Mapper.__init__")
+    stores = [a for a in find_nodes(func.node, lambda n: isinstance(n, ast.Assign)) if isinstance(a.targets[0], ast.Subscript) and isinstance(a.targets[0].value, ast.Name)]  # type: ignore[attr-defined]
+    maps = {a.targets[0].value.id for a in stores}  # type: ignore[attr-defined]
+    uses = [c for c in resolved_calls(ck.prg, func, "ngo.utils.ast:transform_ast") if len(c.args) == 3]
+    ck.need(len(maps) >= 1 and len(uses) >= 1, "Mapper.__init__ builds a renaming and applies it with transform_ast")
+
+    def top(node: ast.AST) -> ast.AST:
+        cur = enclosing_stmt(func, node)
+        while enclosing_loop(func, cur) is not None:
+            cur = enclosing_loop(func, cur)  # type: ignore[assignment]
+        return cur
+
+    for u in uses:
+        tu = top(u)
+        mixed = [a for a in stores if top(a) is tu]
+        later = [a for a in stores if getattr(top(a), "lineno", 0) > getattr(tu, "lineno", 0)]
+        ck.add("the head-variable renaming is complete before it is applied to the head arguments", not mixed and not later, func, u, f"`{short(unparse(u), 60)}`: renaming entries written in the same loop: {len(mixed)}, after it: {len(later)}",
+               "filled while it is applied, a repeated head variable is renamed twice: the head arguments become [X0, X1] while the body is renamed with the final entry only, and `eq(Q,_)` unfolds to `elem(_,_)` - the join on Q is lost")
+
+
 def r_convert(ck: Checker) -> None:
     """Mapper.convert: after the head arguments of the copy rule were replaced by the arguments of the use site, only
     variables that do NOT occur at the use site are anonymised"""
@@ -420,5 +443,6 @@ RULES = [
     Rule("C09.E.remove-unused", P, r_remove_unused),
     Rule("C09.A.single-copies", P, r_single_copies),
     Rule("C09.A.convert", P, r_convert, extra={"C04": ("anonymised",)}),
+    Rule("C09.A.mapper-init", P, r_mapper_init),
     Rule("C09.anonymize", P, r_anonymize),
 ]
